@@ -17,6 +17,8 @@ type effectIndex struct {
 	mutReach     map[*ssa.Function]bool // module function transitively reaches a file-mutating primitive
 	mutSites     []mutSite
 	entryConds   map[*ssa.Function]map[string]bool
+	closureSites map[*ssa.Function][]*ssa.MakeClosure
+	condCache    map[*ssa.BasicBlock]map[string]bool
 }
 
 func (c *Ctx) ensureEffects() *effectIndex {
@@ -148,14 +150,30 @@ func isMutatingCall(site ssa.CallInstruction) (string, bool) {
 		args := site.Common().Args
 		if len(args) >= 2 {
 			if fl, ok := constInt(args[1]); ok {
-				const wr = 0x1 | 0x2 | 0x40 | 0x200 | 0x400 // O_WRONLY|O_RDWR|O_CREATE|O_TRUNC|O_APPEND (linux values)
-				if fl&wr == 0 {
+				prog := site.Parent().Prog
+				wr := osConst(prog, "O_WRONLY") | osConst(prog, "O_RDWR") | osConst(prog, "O_CREATE") | osConst(prog, "O_TRUNC") | osConst(prog, "O_APPEND")
+				if wr != 0 && fl&wr == 0 {
 					return "", false
 				}
 			}
 		}
 	}
 	return name, true
+}
+
+// osConst reads an integer constant of package os as it is for the GOOS the program was loaded for
+// (O_APPEND is 0x400 on linux, 0x8 on darwin, ...).
+func osConst(prog *ssa.Program, name string) int64 {
+	p := prog.ImportedPackage("os")
+	if p == nil {
+		return 0
+	}
+	nc, ok := p.Members[name].(*ssa.NamedConst)
+	if !ok {
+		return 0
+	}
+	n, _ := constInt(nc.Value)
+	return n
 }
 
 // mutatingSites enumerates every file-mutating primitive call in the module, (*os.File) methods included.
@@ -195,9 +213,9 @@ func (c *Ctx) reachesMutation(fn *ssa.Function) bool {
 					return false
 				}
 				seen[g] = true
-				if n := c.CG.Nodes[g]; n != nil {
-					for _, ed := range n.Out {
-						if inModule(ed.Callee.Func) && walk(ed.Callee.Func) {
+				for _, site := range callSites(g) {
+					for _, cal := range c.callees(site) {
+						if inModule(cal) && walk(cal) {
 							return true
 						}
 					}
@@ -424,6 +442,19 @@ func (c *Ctx) entryConds() map[*ssa.Function]map[string]bool {
 
 // condsAt: entry conditions of the function plus the necessary guards of the instruction, as atoms.
 func (c *Ctx) condsAt(in ssa.Instruction) map[string]bool {
+	e := c.ensureEffects()
+	if e.condCache == nil {
+		e.condCache = map[*ssa.BasicBlock]map[string]bool{}
+	}
+	if m, ok := e.condCache[in.Block()]; ok {
+		return m
+	}
+	m := c.condsAtUncached(in)
+	e.condCache[in.Block()] = m
+	return m
+}
+
+func (c *Ctx) condsAtUncached(in ssa.Instruction) map[string]bool {
 	out := map[string]bool{}
 	for k := range c.entryConds()[in.Parent()] {
 		out[k] = true
